@@ -479,6 +479,9 @@ static void check_section_step(cfg_t *ctx, int accepted)
 
 static void check_call_step(int accepted)
 {
+#if defined(CHK_C07) && defined(TRACK_CALLOC)
+	V_ASSERT(n_calloc == 1 && times_freed(last_calloc) == 1, "[C07] the temporary argument vector of a call is released exactly once, whatever the callback returns");
+#endif
 #ifdef CHK_C14
 	int i;
 
